@@ -72,8 +72,16 @@ class Check(BaseCheck):
             lv = pick_level(rng, f)
             if lv is None:
                 continue
+            near = rng.random() < 0.35
+            if near:
+                # a level that passes a vertex within the 1e-3 merge distance without attaining its value
+                u = np.unique(f)
+                k = int(rng.integers(1, len(u) - 1)) if len(u) > 2 else 0
+                lv = float(u[k] + (1e-7 if rng.random() < 0.5 else -1e-7) * (u[-1] - u[0]))
+                if np.any(f == lv) or not (u[0] < lv < u[-1]):
+                    continue
             levels = [lv] if rng.random() < 0.6 else [lv, pick_level(rng, f), pick_level(rng, f)]
-            yield dict(v=v, t=t, f=f, levels=levels, n_points=int(rng.choice([0, 0, 5, 12])), name=c["name"])
+            yield dict(v=v, t=t, f=f, levels=levels, n_points=int(rng.choice([0, 0, 5, 12])), name=c["name"], near_vertex=bool(near))
 
     def correspond(self, drv, stats):
         fails = []
@@ -83,7 +91,7 @@ class Check(BaseCheck):
                 m = TriaMesh(v, t)
             segs = reference_segments(v, t, f, levels[0])
             single = is_single_open_curve(segs)
-            stats.case(core.mesh_key(v, t, f[:3].tolist(), levels), cls=["class:" + case["name"], "levels:%d" % len(levels), "single-curve:%s" % single],
+            stats.case(core.mesh_key(v, t, f[:3].tolist(), levels), cls=["class:" + case["name"], "levels:%d" % len(levels), "single-curve:%s" % single, "near-vertex-level:%s" % case.get("near_vertex", False)],
                        sample=dict(name=case["name"], nv=len(v), levels=levels, single_curve=single))
             r = wire.Reply(drv.ask("level_length %s %s %s %s" % (wire.verts(v), wire.elems(t), wire.rawfloats(f), wire.floats(levels))))
             res = core.call(m.level_length, f, levels[0] if len(levels) == 1 else np.array(levels))
